@@ -147,20 +147,27 @@ int main(int argc, char **argv) {
         if (argc > 5) parse_shape_arg(argv[5]);
         // directory entries (lengths and offsets) + every byte of the interesting tables
         std::vector<size_t> offs;
+        std::vector<std::pair<size_t, size_t>> small;
         unsigned nt = font.size() >= 12 ? (font[4] << 8 | font[5]) : 0;
         for (unsigned i = 0; i < nt && 12 + 16 * (i + 1) <= font.size(); ++i) {
             const uint8_t *e = font.data() + 12 + 16 * i;
             uint32_t tag = MemFace::be32(e); size_t off = MemFace::be32(e + 8), len = MemFace::be32(e + 12);
             for (size_t k = 8; k < 16; ++k) offs.push_back(12 + 16 * i + k);
-            if (interesting(tag) && off <= font.size() && len <= font.size() - off)
+            if (interesting(tag) && off <= font.size() && len <= font.size() - off) {
                 for (size_t k = 0; k < len; ++k) offs.push_back(off + k);
+                if (len <= 64) small.push_back(std::make_pair(off, off + len));     // head, hhea, maxp: swept by every part
+            }
         }
         static const uint8_t BV[] = {0x00, 0x01, 0x7F, 0x80, 0xFF, 0x03, 0x40};
         static const uint16_t WV[] = {0x0000, 0x0001, 0x7FFF, 0x8000, 0xFFFF, 0x00FF, 0x0100, 0xFFFE, 0x0004, 0x0007, 0x0008, 0x0013, 0x0014};     // incl. small lengths around header sizes
         unsigned long idx = 0;
         for (size_t oi = 0; oi < offs.size(); ++oi) {
             size_t o = offs[oi];
-            if ((idx++ % nparts) != part) continue;
+            // parts take PAIRS of consecutive offsets (a part made of every other byte would hold only odd offsets wherever an odd-length
+            // table shifts the parity, and never try a 16-bit value there); the small fixed-layout tables are swept by every part
+            bool always = false;
+            for (auto &sm : small) if (o >= sm.first && o < sm.second) always = true;
+            if (((idx++ >> 1) % nparts) != part && !always) continue;
             uint8_t save0 = font[o], save1 = o + 1 < font.size() ? font[o + 1] : 0;
             unsigned opts = unsigned(oi % 8); int src = (oi % 11 == 0) ? 1 : (oi % 13 == 0) ? 2 : 0;
             for (uint8_t v : BV) {
